@@ -7,12 +7,18 @@ use serde::{Deserialize, Serialize};
 #[derive(Clone, Debug, Serialize, Deserialize)]
 pub enum Scenario {
     Rt(crate::fam_rt::RtScn),
+    HistW(crate::fam_histw::HwScn),
+    Crash(crate::fam_crash::CrashScn),
+    WFault(crate::fam_wfault::WfScn),
 }
 
 impl Scenario {
     pub fn family(&self) -> &'static str {
         match self {
             Scenario::Rt(_) => "RT",
+            Scenario::HistW(_) => "HIST-W",
+            Scenario::Crash(_) => "CRASH",
+            Scenario::WFault(_) => "WFAULT",
         }
     }
 }
@@ -21,6 +27,9 @@ impl Scenario {
 pub fn execute(s: &Scenario, ctx: &mut Ctx) {
     match s {
         Scenario::Rt(x) => crate::fam_rt::execute(x, ctx),
+        Scenario::HistW(x) => crate::fam_histw::execute(x, ctx),
+        Scenario::Crash(x) => crate::fam_crash::execute(x, ctx),
+        Scenario::WFault(x) => crate::fam_wfault::execute(x, ctx),
     }
 }
 
